@@ -170,6 +170,20 @@ EXTRA3 = {
 for _k, _v in EXTRA3.items():
     EXTRA[_k] = EXTRA[_k] + ' Rounds 7-9: ' + _v
 
+EXTRA4 = {
+    'C04': "day overflow combined with time-of-day parts, numeric dd-mm-yyyy / mm-dd-yyyy strings joined to the time by 'T' (incl. the rejections).",
+    'C06': "a predicate whose parameters come in another order than the columns, patterns compiled with re.IGNORECASE.",
+    'C10': "compound bumps with a zero business-day piece ('1w0b', '1m0b', ...).",
+    'C12': "float32 arrays.",
+    'C14': "np.float32(0.1) / np.float16(0.3) against the Python floats, frames with one column label twice.",
+    'C16': "mapping-valued constants in Dict.__call__ (replace, not merge; untouched members by identity), d[k1, 'k0.x'] with dotted paths.",
+    'C18': "every layer of a stack used before the next is wrapped around it and re-probed after the new wrapper was used (cache-sharing defect, fixed).",
+    'C19': "Dict companions with keys of their own (class preserved), the none flag of as_list / as_tuple.",
+    'C20': "suite output_is_input (six settings x data subsets x expiry kinds), an earlier result for only one of two named outputs.",
+}
+for _k, _v in EXTRA4.items():
+    EXTRA[_k] = EXTRA[_k] + ' Round 10: ' + _v
+
 NOT_READY = set([])
 
 PENDING_REASON = 'check under construction in this session (claimed in DESIGN.md; will move to checks once its module is committed)'
